@@ -7,7 +7,7 @@
 From Coq Require Import ZArith List Bool.
 From VBase Require Import MachInt.
 From VModel Require Import Merkle.
-From VProofs Require Import MerkleBase MerkleSingle.
+From VProofs Require Import MerkleBase MerkleSingle MerkleIdx MerkleBatch MerkleTotal MerkleExamples.
 Import ListNotations.
 Open Scope Z_scope.
 
@@ -88,6 +88,70 @@ Theorem C10_verify_out_of_range : forall root index p, 2 <= zlen p <= 64 -> 2 ^ 
   verify D D_eqb merge root index p = Err (LeafIndexOutOfBounds (2 ^ (zlen p - 1)) index).
 Proof. exact (verify_out_of_range D D_eqb merge). Qed.
 
+(* batch_complete: for every tree of depth 1..62 and every non-empty list of at most 255 distinct
+   in-range positions IN ANY ORDER, prove_batch succeeds, the proof lists the committed leaves in the
+   order of the positions, get_root recomputes the root (all structural checks pass, including the
+   repaired leaf-count and all-nodes-consumed checks) and verify_batch accepts. *)
+Theorem C10_batch_complete : forall leaves t (d : nat) root indexes,
+  mt_new D d0 merge leaves = Ok t -> zlen leaves = 2 ^ Z.of_nat d -> (d <= 62)%nat -> mt_root D t = Ok root ->
+  indexes <> [] -> zlen indexes <= 255 -> NoDup indexes -> (forall i, In i indexes -> 0 <= i < zlen leaves) ->
+  exists p, mt_prove_batch D d0 t indexes = Ok p /\ bp_depth p = Z.of_nat d /\
+    length (bp_leaves p) = length indexes /\
+    (forall j i, nth_error indexes j = Some i -> nth_error (bp_leaves p) j = nth_error leaves (Z.to_nat i)) /\
+    get_root D merge p indexes = Ok root /\
+    verify_batch D D_eqb merge root indexes p = Ok tt.
+Proof. exact (batch_complete D D_eqb D_eqb_spec d0 merge). Qed.
+
+(* index validation: map_indexes succeeds exactly on duplicate-free in-range lists with depth < 64 *)
+Theorem C10_map_indexes_complete : forall indexes depth,
+  0 <= depth < 64 -> NoDup indexes -> (forall x, In x indexes -> x < 2 ^ depth) ->
+  exists imap, map_indexes indexes depth = Ok imap /\ imap_ok indexes imap /\ length imap = length indexes.
+Proof. exact map_indexes_complete. Qed.
+
+Theorem C10_map_indexes_inv : forall indexes depth imap,
+  map_indexes indexes depth = Ok imap ->
+  depth < 64 /\ NoDup indexes /\ (forall x, In x indexes -> x < 2 ^ depth) /\ imap_ok indexes imap /\
+  length imap = length indexes.
+Proof. exact map_indexes_inv. Qed.
+
+Theorem C10_map_indexes_total : forall indexes depth, map_indexes indexes depth <> Panic.
+Proof. exact map_indexes_not_Panic. Qed.
+
+(* totality: BatchMerkleProof::get_root, MerkleTree::verify_batch and into_paths (repaired) never
+   panic, for EVERY proof value (any leaves, any node vectors, any depth byte) and EVERY index list
+   of usize values.  Before the repair the Panic domain was: depth >= 64 (debug profile) for all
+   three, and additionally i + 2^depth >= 2^64 for some supplied index i for into_paths (replayed,
+   notes/C10.findings.json F10c); the repaired code has an empty Panic domain. *)
+Theorem C10_get_root_total : forall p indexes, 0 <= bp_depth p -> usize_list indexes ->
+  get_root D merge p indexes <> Panic.
+Proof. exact (get_root_total D merge). Qed.
+
+Theorem C10_verify_batch_total : forall root p indexes, 0 <= bp_depth p -> usize_list indexes ->
+  verify_batch D D_eqb merge root indexes p <> Panic.
+Proof. exact (fun root p indexes => verify_batch_total D merge D_eqb root p indexes). Qed.
+
+Theorem C10_into_paths_total : forall p indexes, 0 <= bp_depth p -> usize_list indexes ->
+  into_paths D merge p indexes <> Panic.
+Proof. exact (into_paths_total D merge). Qed.
+
+(* acceptance implies every structural guard ("duplicated or out-of-range positions, wrong shape yield an
+   error"): with C10_get_root_total the outcome on any violation of a guard is an Err *)
+Theorem C10_get_root_Ok_guards : forall p indexes r, get_root D merge p indexes = Ok r ->
+  indexes <> [] /\ zlen indexes <= 255 /\ zlen indexes = zlen (bp_leaves p) /\ NoDup indexes /\
+  (forall i, In i indexes -> i < 2 ^ bp_depth p) /\ bp_depth p < 64 /\
+  zlen (normalize_indexes indexes) = zlen (bp_nodes p).
+Proof. exact (get_root_Ok_guards D merge). Qed.
+
+(* NOT PROVED (tested only, see checks/c10.py):
+   into_paths_spec     : into_paths (prove_batch t idx) idx = Ok (map (prove t) idx)
+   from_into_roundtrip : from_paths (into_paths (prove_batch t idx) idx) idx = Ok (prove_batch t idx)
+   batch_binding       : get_root p idx = Ok (root t) -> bp_depth p = depth t ->
+                         forall j, nth j (bp_leaves p) = leaf (nth j idx) of t \/ a collision of merge is computed
+   The single-path binding theorem above applies to every path returned by into_paths; the missing
+   link is that get_root = Ok r implies into_paths returns paths that verify against r and start with
+   the claimed leaves.  These three statements are exercised by the correspondence (every subset of
+   positions of trees with <= 8 / <= 16 leaves, all mutations) and by the falsifier with real hashers. *)
+
 End C10.
 
 Print Assumptions C10_build_nodes_spec.
@@ -102,3 +166,22 @@ Print Assumptions C10_verify_Ok_iff.
 Print Assumptions C10_verify_short.
 Print Assumptions C10_verify_long.
 Print Assumptions C10_verify_out_of_range.
+Print Assumptions C10_batch_complete.
+Print Assumptions C10_map_indexes_complete.
+Print Assumptions C10_map_indexes_inv.
+Print Assumptions C10_map_indexes_total.
+Print Assumptions C10_get_root_total.
+Print Assumptions C10_verify_batch_total.
+Print Assumptions C10_into_paths_total.
+Print Assumptions C10_get_root_Ok_guards.
+
+(* Non-vacuity: concrete instances satisfying the hypotheses of the theorems above (Proofs/MerkleExamples.v):
+   ex_new/ex_single_hyps/ex_single_run (single_complete), ex_binding_hyps/ex_binding_deep (single_binding with
+   p <> p': the collision branch is inhabited), ex_batch_hyps/ex_batch_run (batch_complete, unsorted positions),
+   ex_surplus_node/ex_surplus_leaf/ex_depth_64/ex_short_path (totality: hostile shapes give Err). *)
+Check ex_single_hyps.
+Check ex_binding_hyps.
+Check ex_binding_deep.
+Check ex_batch_hyps.
+Check ex_batch_run.
+Check ex_depth_64.
